@@ -6,7 +6,6 @@ import (
 	"go/ast"
 	"go/token"
 	"go/types"
-	"sort"
 	"strings"
 )
 
@@ -592,6 +591,86 @@ func mentionsScPath(f *FuncInfo, k *KindEnv, e ast.Expr) bool {
 	return hit
 }
 
+// atomicReplaceSpec: "wrote:<temp>" behind a successful os.WriteFile(temp, ..), "renamed:<path>" behind a successful
+// os.Rename(temp, path) - or behind a successful call of a method X.h(..) that returns nil only past its own successful
+// rename onto <receiver>.Path (a helper that does the writing; the fact is then "renamed:X.Path").
+func atomicReplaceSpec(p *Program, depth int) *PassSpec {
+	return &PassSpec{Vias: []Via{{Call: func(g *FuncInfo, call *ast.CallExpr) (string, bool) {
+		if name, ok := osMutator(g.Info(), call); ok {
+			switch name {
+			case "WriteFile":
+				return "wrote:" + types.ExprString(call.Args[0]), true
+			case "Rename":
+				return "renamed:" + types.ExprString(call.Args[1]), true
+			}
+			return "", false
+		}
+		if depth >= 1 {
+			return "", false
+		}
+		sel, ok := ast.Unparen(call.Fun).(*ast.SelectorExpr)
+		if !ok {
+			return "", false
+		}
+		h := p.CalleeInfo(g.Info(), call)
+		if h == nil || h.Decl == nil || h.Decl.Recv == nil || len(h.Decl.Recv.List) != 1 || len(h.Decl.Recv.List[0].Names) != 1 || h.Body == nil {
+			return "", false
+		}
+		if h.Type.Results == nil || len(h.Type.Results.List) != 1 || !isErrorType(h.Info().TypeOf(h.Type.Results.List[0].Type)) {
+			return "", false
+		}
+		recv := h.Decl.Recv.List[0].Names[0].Name
+		hs := atomicReplaceSpec(p, depth+1)
+		hinfo := h.Info()
+		renames, good := 0, true
+		h.CFG().EachNode(func(r NodeRef) {
+			rs, ok := r.Node().(*ast.ReturnStmt)
+			if !ok || len(rs.Results) != 1 {
+				return
+			}
+			res := ast.Unparen(rs.Results[0])
+			switch x := res.(type) {
+			case *ast.Ident:
+				if x.Name == "nil" {
+					if hs.Passed(h, r, "renamed:"+recv+".Path") {
+						renames++
+					} else {
+						good = false
+					}
+					return
+				}
+				// return err below `err != nil`
+				guarded := false
+				for _, is := range enclosingIfs(h.Body, rs) {
+					for _, a := range Implied(is.Cond, true) {
+						if o, nilOnTrue, ok := NilTest(hinfo, a.E); ok && o == ObjOf(hinfo, x) && nilOnTrue != a.Val {
+							guarded = true
+						}
+					}
+				}
+				if !guarded {
+					good = false
+				}
+			case *ast.CallExpr:
+				if name, ok := osMutator(hinfo, x); ok && name == "Rename" && types.ExprString(x.Args[1]) == recv+".Path" {
+					renames++
+					return
+				}
+				if fn := Callee(hinfo, x); fn != nil && fn.Pkg() != nil && (fn.Pkg().Path() == "fmt" && fn.Name() == "Errorf" || fn.Pkg().Path() == "errors" && fn.Name() == "New") {
+					return
+				}
+				good = false
+			default:
+				good = false
+			}
+		})
+		if good && renames > 0 {
+			return "renamed:" + types.ExprString(sel.X) + ".Path", true
+		}
+		return "", false
+	}}}}
+}
+
 func runAtomicReplace(c *Ctx) {
 	p := c.P
 	k := sidecarPathKinds(c)
@@ -600,19 +679,7 @@ func runAtomicReplace(c *Ctx) {
 		cfg := f.CFG()
 		n := 0
 		// facts: "wrote:<tempExpr>" on success of os.WriteFile(temp,..); "renamed" on success of os.Rename(temp, P)
-		spec := &PassSpec{Vias: []Via{{Call: func(g *FuncInfo, call *ast.CallExpr) (string, bool) {
-			name, ok := osMutator(g.Info(), call)
-			if !ok {
-				return "", false
-			}
-			switch name {
-			case "WriteFile":
-				return "wrote:" + types.ExprString(call.Args[0]), true
-			case "Rename":
-				return "renamed:" + types.ExprString(call.Args[1]), true
-			}
-			return "", false
-		}}}}
+		spec := atomicReplaceSpec(p, 0)
 		cfg.Calls(func(r NodeRef, call *ast.CallExpr) {
 			name, ok := osMutator(info, call)
 			if !ok {
@@ -983,34 +1050,46 @@ func runLoadValid(c *Ctx) {
 	}
 }
 
-// binarySeq lists the widths of binary.Write/Read calls in source order.
+// binarySeq lists the widths of binary.Write/Read calls in the order of the source; a call of another function of the
+// package (a helper that writes a part of the layout) is followed, two levels deep.
 func binarySeq(f *FuncInfo, dir string) []string {
-	var out []string
-	info := f.Info()
-	type item struct {
-		pos token.Pos
-		s   string
-	}
-	var items []item
-	ast.Inspect(f.Body, func(n ast.Node) bool {
-		call, ok := n.(*ast.CallExpr)
-		if !ok {
-			return true
-		}
-		if calleeIs(info, call, "encoding/binary", dir) && len(call.Args) == 3 {
-			end := "BE"
-			if !isBigEndian(info, call.Args[1]) {
-				end = "LE"
+	var walk func(f *FuncInfo, depth int) []string
+	walk = func(f *FuncInfo, depth int) []string {
+		var out []string
+		info := f.Info()
+		ast.Inspect(f.Body, func(n ast.Node) bool {
+			call, ok := n.(*ast.CallExpr)
+			if !ok {
+				return true
 			}
-			items = append(items, item{call.Pos(), fmt.Sprintf("u%d%s", typeBits(info.TypeOf(call.Args[2])), end)})
-		}
-		return true
-	})
-	sort.Slice(items, func(i, j int) bool { return items[i].pos < items[j].pos })
-	for _, it := range items {
-		out = append(out, it.s)
+			if calleeIs(info, call, "encoding/binary", dir) && len(call.Args) == 3 {
+				end := "BE"
+				if !isBigEndian(info, call.Args[1]) {
+					end = "LE"
+				}
+				out = append(out, fmt.Sprintf("u%d%s", typeBits(info.TypeOf(call.Args[2])), end))
+				return true
+			}
+			if depth < 2 && f.Prog != nil {
+				if g := f.Prog.CalleeInfo(info, call); g != nil && g.Body != nil && g.Pkg == f.Pkg && g != f {
+					// arguments are evaluated before the callee runs
+					for _, a := range call.Args {
+						ast.Inspect(a, func(m ast.Node) bool {
+							if c2, ok := m.(*ast.CallExpr); ok && calleeIs(info, c2, "encoding/binary", dir) && len(c2.Args) == 3 {
+								out = append(out, "arg")
+							}
+							return true
+						})
+					}
+					out = append(out, walk(g, depth+1)...)
+					return false
+				}
+			}
+			return true
+		})
+		return out
 	}
-	return out
+	return walk(f, 0)
 }
 
 // eqSummary summarises a bool-returning method: field name -> index of the parameter that the receiver's field is
